@@ -485,9 +485,11 @@ class E2ESpec(Spec):
         return {'trace': trace, 'nontrivial': skipped_any or flag_decides, 'verdict': verdict,
                 'text': '\n'.join(lines), 'opt': opt, 'unspec': unspec}
 
-    def run_case(self, hist):
+    def run_case(self, hist, respell=None):
         m = self.model(hist)
         text, opt, exp_trace, nontrivial, exp_verdict = m['text'], m['opt'], m['trace'], m['nontrivial'], m['verdict']
+        if respell is not None:
+            text = text.replace('# xdoctest:', respell)
         config = None
         if opt is not None:
             from xdoctest.doctest_example import DoctestConfig
@@ -520,6 +522,39 @@ class E2ESpec(Spec):
                           'msg': 'expected a got/want failure, got %s: %s' % (r.exc_type, str(r.exc)[:200])})
         return {'atoms': atoms, 'outcome': '%s/%d' % (got_verdict, len(r.trace or ())), 'case': case,
                 'nontrivial': nontrivial}
+
+
+SPELLINGS = ['# doctest:', '# xdoc:', '# XDOCTEST:', '# Doctest:', '# xDoc:', '#xdoctest:', '#  DOC:', '# xdoctest:  ']
+
+
+class SpellingSpec(E2ESpec):
+    """the comment prefix of a directive may be spelled doctest: / xdoctest: / xdoc: / doc: in any letter case and with
+    any blanks around it (directive.DIRECTIVE_RE); every history behaves as the model says under every spelling"""
+    title = 'directive histories under every spelling of the directive prefix'
+
+    def __init__(self, max_len, max_cost, name):
+        E2ESpec.__init__(self, max_len, max_cost, name, with_opts=False)
+        self.rule = ('histories of <= %d events over the e2e alphabet, cost <= %d, holding at least one directive, each rendered '
+                     'with each of %d spellings of the directive prefix (%s); oracle and non-trivial as for the e2e specs'
+                     % (max_len, max_cost, len(SPELLINGS), ' / '.join(repr(x) for x in SPELLINGS)))
+
+    def final(self, S, hist):
+        return any(ev[0] in ('block', 'blockb') or (ev[0] == 'stmt' and ev[3] is not None) for ev in hist)
+
+    def run_case(self, hist):
+        atoms, outcomes, nontrivial, unspec = [], [], 0, 0
+        case = None
+        for sp in SPELLINGS:
+            r = E2ESpec.run_case(self, hist, respell=sp)
+            if r.get('unspec'):
+                return r
+            for a in r['atoms']:
+                atoms.append({'sig': a['sig'] + '@spelling:' + sp.strip(), 'msg': a['msg']})
+                case = case or r['case']
+            outcomes.append(r['outcome'])
+            nontrivial = r['nontrivial']
+        return {'atoms': atoms, 'outcome': outcomes[0] if len(set(outcomes)) == 1 else 'spelling-dependent',
+                'case': case or r['case'], 'nontrivial': nontrivial}
 
 
 SUB_ALPHABET = [ev for ev in E2E_EVENTS
@@ -741,5 +776,7 @@ def specs(tier):
     if tier == 'thorough':
         return [UnitSpec(), ReqCondSpec(), E2ESpec(2, 99, 'e2e-len2'), E2ESpec(3, 5, 'e2e-len3'),
                 E2ESpec(4, 3, 'e2e-len4'),
-                E2ESpec(5, 5, 'e2e-sub5', alphabet=SUB_ALPHABET, with_opts=False), PluginSpec(3, 4, 'plugin-len3')]
-    return [UnitSpec(), ReqCondSpec(), E2ESpec(2, 99, 'e2e-len2'), E2ESpec(3, 3, 'e2e-len3'), PluginSpec(3, 2, 'plugin-len3')]
+                E2ESpec(5, 5, 'e2e-sub5', alphabet=SUB_ALPHABET, with_opts=False), PluginSpec(3, 4, 'plugin-len3'),
+                SpellingSpec(3, 4, 'spelling-len3')]
+    return [UnitSpec(), ReqCondSpec(), E2ESpec(2, 99, 'e2e-len2'), E2ESpec(3, 3, 'e2e-len3'), PluginSpec(3, 2, 'plugin-len3'),
+            SpellingSpec(3, 2, 'spelling-len3')]
